@@ -996,6 +996,19 @@ fn main() {
             sm_multiset(&mut sm_big, &[(v, 1_000_000), (v, 2)], &mut obs, &mut origs);
         }
     }
+    // every occurrence count 1..=300 (not only round ones) on every alphabet value, alone and next
+    // to an equal single observation: a mean computed any other way than total / occurrences
+    // is off by an ulp for some counts (49, 75, 77, ...), which moves a value that sits on a
+    // bucket edge into the bucket below
+    {
+        let (mut obs, mut origs) = (Vec::new(), Vec::new());
+        for v in alpha.iter() {
+            for c in 1..=300u64 {
+                exp_multiset(&mut sm_big, &[(*v, c)], &mut obs, &mut origs);
+                sm_multiset(&mut sm_big, &[(*v, c), (*v, 1)], &mut obs, &mut origs);
+            }
+        }
+    }
     let sm_s = t2.elapsed().as_secs_f64();
     let (e2_multisets, sm_multisets, sm_big_cases) = (e2.multisets, sm.multisets, sm_big.multisets);
     let e2_evals = e2.evals + sm.evals + sm_big.evals;
